@@ -8,7 +8,8 @@
   Arguments  {"heap": [cells] (HeapWire), "regs": [addr, …], "steps": [step, …]}
   State      heap, registers (node addresses or null; a step that hands out a node PUSHES a
              register), one overlay document, the list of outcomes.
-  Steps      {"s":"put","l":L,"p":[comp…],"v":reg}         OverlayDocument.Put(L, path, node)
+  Steps      {"s":"reg","a":addr}                           a node of the initial heap becomes a register
+             {"s":"put","l":L,"p":[comp…],"v":reg}         OverlayDocument.Put(L, path, node)
              {"s":"add","l":L,"v":reg}                      OverlayDocument.Add(L, container)
              {"s":"populate","l":L,"p":[comp…],"d":node}    OverlayDocument.Populate(L, path, map)
              {"s":"layers"}                                 Layers(): pushes one register per layer
@@ -138,6 +139,10 @@ def step (st : St) (j : Json) : Except String St := do
   | "eval" =>
     let root ← reg st j "r"
     pure (push st (evalH st.h root (← strsOr j "p")))
+  | "reg" =>
+    -- a node of the INITIAL heap enters the history here (pushed as a register)
+    let a ← Wire.getNat j "a"
+    if a < st.h.size then pure (push st (some a)) else throw s!"reg: no cell {a}"
   | "w" =>
     let root ← reg st j "r"
     let tgt ← nav st.h root (← strsOr j "p")
